@@ -697,7 +697,9 @@ any receiver slice value with nil.
 func (r Stack) Replace(x any, idx int) (ok bool) {
 	if r.IsInit() && x != nil {
 		if !r.getState(ronly) {
+			r.stack.lock()
 			ok = r.stack.replace(x, idx)
+			r.stack.unlock()
 		}
 	}
 
